@@ -78,6 +78,88 @@ void h_emit(void)
   }
 }
 
+
+/* ---------------------------------------------------------------------------------------------------------------
+   One call of emit() from every state it can save (resumption), against the un-RLE rule applied to the decoder's
+   LOGICAL state.  What the saved fields mean (derived from where emit() stores them, stated here as the contract):
+     rle_state 0      nothing pending, no run context (start of block)
+     rle_state 5      byte rle_char fetched but not yet written, no run context
+     rle_state 1,2,3  byte rle_char fetched but not yet written; rle_state equal bytes rle_prev were written just before it
+     rle_state 4      rle_char more copies of rle_prev are still to be written (a repeat count that did not fit)
+   rle_avail = run-length-encoded bytes not yet fetched; rle_index = list node of the last fetched byte.               */
+#ifndef EMIT_S
+#define EMIT_S 3
+#endif
+#ifndef EMIT_REST
+#define EMIT_REST 3        /* run-length encoded bytes still unfetched */
+#endif
+#define ST_OUT (EMIT_REST + 2 * EMIT_VALS + 2)
+struct lstate { int pending; unsigned k; uint8_t c, d; unsigned cnt; };   /* pending: c is fetched, unwritten; k equal bytes d written; cnt: copies of d still owed */
+static int lstate_code(const struct lstate *l) { return l->cnt ? 4 : !l->pending ? 0 : l->k == 0 ? 5 : (int)l->k; }
+
+void h_emit_step(void)
+{
+  struct decoder_state ds;
+  static uint32_t tt[EMIT_REST + 2];
+  V_IN_ARR(uint8_t, x, EMIT_REST + 1);
+  V_IN(unsigned, c0);
+  V_IN(unsigned, d0);
+  V_IN(unsigned, m);
+  V_IN(uint32_t, crc0);
+  unsigned i, n = EMIT_REST;
+  uint8_t out[ST_OUT + 2];
+  V_ASSUME(c0 < EMIT_VALS && d0 < EMIT_VALS && m >= 1 && m <= ST_OUT);
+  if (EMIT_S == 4) V_ASSUME(c0 >= 1);                 /* state 4 is saved only with copies still owed */
+  for (i = 0; i < EMIT_REST + 1; i++) V_ASSUME(x[i] < EMIT_VALS);
+  for (i = 0; i < EMIT_REST + 1; i++) tt[i + 1] = ((i + 2) << 8) + x[i];     /* node 0 is the last fetched node; nodes 1.. hold the unfetched bytes */
+  tt[0] = (1u << 8) + c0;
+  ds.tt = tt; ds.rle_state = EMIT_S; ds.rle_crc = crc0; ds.rle_index = tt[0]; ds.rle_avail = n; ds.rle_prev = d0; ds.rle_char = c0; ds.crc = 0;
+  /* ---- reference: continue un-RLE from the logical state */
+  struct lstate L; L.pending = (EMIT_S == 1 || EMIT_S == 2 || EMIT_S == 3 || EMIT_S == 5); L.k = (EMIT_S >= 1 && EMIT_S <= 3) ? EMIT_S : 0;
+  L.c = (uint8_t)c0; L.d = (uint8_t)d0; L.cnt = EMIT_S == 4 ? c0 : 0;
+  uint8_t want[ST_OUT + 2]; unsigned wl = 0, fetched = 0; uint32_t crc = crc0; int verdict = -1;   /* -1 running, OK, MORE, ERR_RUNLEN */
+  unsigned step;
+  for (step = 0; step < 2 * ST_OUT + 4 && verdict == -1; step++) {
+    if (L.cnt) {                                                    /* owed copies first */
+      if (wl == m) { verdict = MORE; break; }
+      want[wl++] = L.d; crc = (crc << 8) ^ crc_table[(crc >> 24) ^ L.d]; L.cnt--;
+      continue;
+    }
+    if (!L.pending) {                                               /* fetch the next run-length encoded byte */
+      if (fetched == n) { verdict = OK; break; }
+      L.c = x[fetched++]; L.pending = 1;
+    }
+    if (wl == m) { verdict = MORE; break; }                         /* no room: the fetched byte stays pending */
+    want[wl++] = L.c; crc = (crc << 8) ^ crc_table[(crc >> 24) ^ L.c]; L.pending = 0;
+    if (L.k > 0 && L.c == L.d) L.k++; else { L.d = L.c; L.k = 1; }
+    if (L.k == 4) {                                                 /* four equal bytes: the next byte is a repeat count */
+      if (fetched == n) { verdict = ERR_RUNLEN; break; }
+      L.cnt = x[fetched++]; L.k = 0;
+    }
+  }
+  size_t sz = m;
+  int rv = emit(&ds, out, &sz);
+  V_ASSERT(verdict != -1, "reference finished");
+  V_ASSERT(rv == verdict, "emit returns OK when the block is finished, MORE when the buffer filled first, ERR_RUNLEN when four equal bytes end the block without a count");
+  if (rv != ERR_RUNLEN) {
+    V_ASSERT(m - (unsigned)sz == wl, "emit writes exactly the bytes the un-RLE rule yields until the buffer is full or the block ends");
+    { int same = 1; for (i = 0; i < ST_OUT; i++) if (i < wl && out[i] != want[i]) same = 0; V_ASSERT(same, "the bytes written are the reference decoding from the resumed state"); }
+  }
+  if (rv == OK) {
+    V_ASSERT(ds.crc == (crc ^ 0xFFFFFFFFu), "the reported block CRC is the running CRC of all bytes written, complemented");
+    V_CANARY("block finished");
+  }
+  if (rv == MORE) {
+    V_ASSERT(sz == 0, "MORE only with a full buffer");
+    V_ASSERT(ds.rle_state == lstate_code(&L) && ds.rle_crc == crc && ds.rle_avail == n - fetched, "the state saved at a full buffer is the logical decoder state (run context, pending byte, bytes left, running CRC)");
+    V_ASSERT(ds.rle_state == 0 || ((ds.rle_state == 4 ? ds.rle_char == L.cnt : ds.rle_char == L.c) && (ds.rle_state == 5 || ds.rle_prev == L.d)), "saved pending byte / owed copies and run byte");
+    V_ASSERT((ds.rle_index >> 8) == fetched + 1, "saved list position is the next unfetched byte");
+#if EMIT_S == 4 || (EMIT_S != 0 && EMIT_REST >= 1) || (EMIT_S == 0 && EMIT_REST >= 2)      /* otherwise a buffer of >= 1 byte always suffices */
+    V_CANARY("suspended at a full buffer");
+#endif
+  }
+}
+
 #ifdef VERIF_REPLAY
 int main(void) { HARNESS(); puts("REPLAY-PASS"); return 0; }
 #endif
